@@ -26,6 +26,10 @@ Proof. exact adopted_once. Qed.
 Theorem C11_adopted_order_is_settled : forall s x st, oget (sr_name x) (ls_orders s) = None ->
   settled (apply_row (adopt s x st) (sr_name x) (sr_row x)) (sr_name x).
 Proof. exact adopted_is_settled. Qed.
+(* ... and is charged to the runner context of ITS strategy and selection (one new trade, live), as a placement would be *)
+Theorem C11_adoption_charges_context : forall s x st,
+  exists c, In c (ls_ctx (adopt s x st)) /\ rc_strat c = st /\ rc_sel c = sr_sel x /\ In (ls_next_trade s) (rc_trades c) /\ In (ls_next_trade s) (rc_live c).
+Proof. exact adoption_charges_context. Qed.
 Theorem C11_unknown_strategy_ignored : forall s x, oget (sr_name x) (ls_orders s) = None -> sr_strategy x = None -> process_row s x = s.
 Proof. exact unknown_strategy_ignored. Qed.
 Print Assumptions C11_adopted_once.
